@@ -6,6 +6,7 @@
     thermal, hyperelastic (Newton solve), beams (Euler-Bernoulli / Timoshenko, 2D / 3D) at generic inclinations;
     rigid motions obtained as a sequence of movers (two reflections = a rotation, ...) with pressure loads; motions that map the
     coordinate axes onto themselves (half / quarter turns, coordinate mirrors) with anisotropic laws given in the global axes;
+    rotations by a generic angle about a coordinate axis (one material axis stays on a global axis, the other turns) with oriented laws;
     straight runs of two beam members described towards each other, on the x-axis and inclined."""
 
 from __future__ import annotations
@@ -464,6 +465,65 @@ def main():
                 if not (abs(W1 - W0) <= 1e-7 * (1 + abs(W0))):
                     res.fail(f"energy not invariant law={lk} motion maps the coordinate axes onto themselves", f"Wdef {W0} -> {W1} after a {name}", ident)
 
+    # ---------------- rotations by a generic angle about a coordinate axis, laws given along the coordinate axes ----------------
+    # "for all rotations (not only multiples of 90 degrees)", "anisotropic materials with rotated axes": also the rotations that leave
+    # ONE material axis on a global axis while the other one turns (block with material axes along x, y, z turned about x, about y,
+    # about z), from material axes that are any pair of coordinate axes. 3D only (in the plane both axes turn together).
+    E3 = np.eye(3)
+    pairs = [(0, 1), (1, 2), (2, 0)] if not thorough else [(0, 1), (1, 2), (2, 0), (1, 0), (2, 1), (0, 2)]
+    for k, et in enumerate(["TETRA4", "HEXA8"] if not thorough else ["TETRA4", "TETRA10", "HEXA8", "PRISM6"]):
+        for lk in ("ortho", "ti", "aniso"):
+            for ip, (i1, i2) in enumerate(pairs):
+                a1, a2 = E3[i1].copy(), E3[i2].copy()
+                tvec = np.array([rng.randint(1, 4) / 8, rng.randint(-4, 4) / 8, rng.randint(1, 4) / 8])
+                bvec = np.array([rng.randint(-4, 4) / 16, rng.randint(-4, 4) / 16, rng.randint(1, 4) / 16])
+                ref = None
+                for iax in range(3):
+                    if not thorough and lk == "aniso" and iax != (k + ip) % 3:
+                        continue
+                    th_deg = rng.choice([17.0, 33.5, 71.0, 128.0, 201.5, 305.0])
+                    c = np.array([rng.randint(-4, 4) / 4, rng.randint(-4, 4) / 4, rng.randint(-4, 4) / 4])
+                    Q = rodrigues(E3[iax], np.deg2rad(th_deg))
+                    ident = dict(elemType=et, law=lk, axis_1=a1.tolist(), axis_2=a2.tolist(), motion=f"Mesh.Rotate({th_deg}, center, {'xyz'[iax]}-axis)", center=c.tolist(),
+                                 traction=tvec.tolist(), body=bvec.tolist(), bc="clamp x==0; traction on x==2; body force; axes, loads moved with the mesh")
+                    try:
+                        sols3 = [ref] if ref is not None else []
+                        for moved in ((False, True) if ref is None else (True,)):
+                            mesh = build_mesh(et, 3)
+                            clamp = mesh.Nodes_Conditions(lambda x, y, z: x == 0)
+                            face = mesh.Nodes_Conditions(lambda x, y, z: x == 2.0)
+                            X0 = mesh.coord.copy()
+                            if moved:
+                                mesh.Rotate(th_deg, tuple(c), tuple(E3[iax]))
+                            Qm = Q if moved else np.eye(3)
+                            s = Simulations.Elastic(mesh, make_law(rng, lk, 3, Qm @ a1, Qm @ a2, 1.0))
+                            s.add_dirichlet(clamp, [0.0] * 3, ["x", "y", "z"])
+                            s.add_surfLoad(face, [float(v) for v in Qm @ tvec], ["x", "y", "z"])
+                            s.add_volumeLoad(mesh.nodes, [float(v) for v in Qm @ bvec], ["x", "y", "z"])
+                            u = np.asarray(s.Solve()).reshape(mesh.Nn, 3).copy()
+                            sols3.append((X0, mesh.coord.copy(), u, float(s.Result("Wdef")), np.asarray(s.Result("Svm", nodeValues=False), dtype=float).copy()))
+                    except Exception as ex:  # noqa: BLE001
+                        res.fail(f"problem turned about a coordinate axis raises elem={et} law={lk}", f"{type(ex).__name__}: {str(ex)[:150]}", ident)
+                        continue
+                    ref = sols3[0]
+                    (X0, _, u0, W0, s0), (_, X1, u1, W1, s1) = sols3
+                    res.case(("turn about a coordinate axis", et, lk, (i1, i2), iax))
+                    res.count("turn about a coordinate axis:" + "xyz"[iax])
+                    if not (np.abs(X1 - ((X0 - c) @ Q.T + c)).max() <= 1e-9):
+                        res.fail("mesh mover rotation about a coordinate axis", f"the nodes are up to {np.abs(X1 - ((X0 - c) @ Q.T + c)).max():.2e} away from the transformation", ident)
+                        continue
+                    want = u0 @ Q.T
+                    err = np.abs(u1 - want).max() / (1e-30 + np.abs(want).max())
+                    if not (err <= 1e-7):
+                        res.fail(f"frame indifference sim=static law={lk} rotation about a coordinate axis, material axes along the coordinate axes",
+                                 f"block with material axes ({'xyz'[i1]}, {'xyz'[i2]}) turned by {th_deg} deg about the {'xyz'[iax]}-axis (axes and loads turned with it): "
+                                 f"the solution of the moved problem differs from the moved solution by {err:.2e} (relative, elem {et})", ident)
+                        continue
+                    if not (abs(W1 - W0) <= 1e-7 * (1 + abs(W0))):
+                        res.fail(f"energy not invariant law={lk} rotation about a coordinate axis", f"Wdef {W0} -> {W1} after {th_deg} deg about the {'xyz'[iax]}-axis", ident)
+                    if not (np.abs(s1 - s0).max() <= 1e-6 * (1 + np.abs(s0).max())):
+                        res.fail(f"von Mises not invariant law={lk} rotation about a coordinate axis", f"max difference {np.abs(s1 - s0).max():.2e} after {th_deg} deg about the {'xyz'[iax]}-axis", ident)
+
     # ---------------- a straight run made of two members described towards each other ----------------
     # "a beam or frame member gives the same response in its own axes whatever its inclination": also when the run lies on the
     # x-axis and its members do not have the same sense (each one described from its support towards the loaded joint).
@@ -521,6 +581,45 @@ def main():
                     res.fail(f"beam frame indifference timo={timo} dim={bdim} elem={et} run of two members described towards each other",
                              f"the run lying on the x-axis and the same run turned by a generic rotation have responses that differ by {err:.2e} (relative) once brought back in the same axes", ident)
 
+    # ---------------- distributed moments on a member described in either direction, on and off the x-axis ----------------
+    # The same cantilever under a line load on its rotation (rz in 2D, ry / rz in 3D): described from the clamp to the tip or from the
+    # tip to the clamp, lying on the x-axis or translated off it. The response must not depend on the description.
+    sect_m = Mesher().Mesh_2D(Domain(Point(), Point(0.1, 0.2)))
+    for bdim, unk_m in ((2, "rz"), (3, "ry"), (3, "rz")):
+        for timo in (False, True):
+            for etb in (["SEG2", "SEG3"] if not thorough else ["SEG2", "SEG3", "SEG4"]):
+                if timo and etb == "SEG2":
+                    continue
+                q_m = rng.randint(1, 8) * 250.0
+                ident = dict(sim="beam", dim=bdim, timoshenko=timo, elemType=etb, load=f"line load {q_m} on {unk_m}", clamp="x = 0")
+                tips = {}
+                try:
+                    for name_m, (p0_, p1_, off_) in (("clamp -> tip on the x-axis", ((0, 0, 0), (1, 0, 0), (0, 0, 0))),
+                                                     ("tip -> clamp on the x-axis", ((1, 0, 0), (0, 0, 0), (0, 0, 0))),
+                                                     ("tip -> clamp at y = 2", ((1, 2, 0), (0, 2, 0), (0, 2, 0)))):
+                        bm_ = Models.Beam.Isotropic(bdim, Line(Point(*p0_), Point(*p1_), 0.25), sect_m, 210e9, 0.3)
+                        mm_ = Mesher().Mesh_Beams([bm_], elemType=ElemType(etb))
+                        sm_ = Simulations.Beam(mm_, Models.Beam.BeamStructure([bm_]), useTimoshenko=timo)
+                        unks_ = sm_.Get_unknowns()
+                        sm_.add_dirichlet(mm_.Nodes_Point(Point(*off_)), [0.0] * len(unks_), unks_)
+                        sm_.add_lineLoad(mm_.nodes, [q_m], [unk_m])
+                        um_ = np.asarray(sm_.Solve()).reshape(mm_.Nn, -1)
+                        tip_ = int(np.argmax(np.linalg.norm(mm_.coord - np.array(off_, dtype=float), axis=1)))
+                        tips[name_m] = um_[tip_].copy()
+                except Exception as ex:  # noqa: BLE001
+                    res.fail(f"distributed moment on a beam raises dim={bdim} timo={timo}", f"{type(ex).__name__}: {str(ex)[:150]}", ident)
+                    continue
+                res.case(("beam-moment", bdim, unk_m, timo, etb))
+                res.count("beam-distributed-moments")
+                ref_m = tips["clamp -> tip on the x-axis"]
+                if not (np.abs(ref_m).max() > 0):
+                    res.disagree("vacuous", dict(ident, note="the distributed moment does not move the tip"))
+                for name_m, val_m in tips.items():
+                    err_m = np.abs(val_m - ref_m).max() / (1e-30 + np.abs(ref_m).max())
+                    if not (err_m <= 1e-8):
+                        res.fail(f"beam frame indifference timo={timo} dim={bdim} distributed moment, member described {name_m}",
+                                 f"tip response {val_m.tolist()} differs from the one of the member described from the clamp to the tip {ref_m.tolist()} (relative {err_m:.2e})", ident)
+
     answers = driver.ask(lines)
     if answers is None:
         res.disagree("driver", "model driver does not run: " + getattr(driver, "error", "")[:400])
@@ -540,7 +639,7 @@ def main():
     res.write("problems moved with Mesh.Rotate (generic angles, generic axes in 3D) / Mesh.Symmetry / Mesh.Translate: clamp + surface traction + body force on meshes of 2D / 3D element types, "
               "isotropic / transversely isotropic / orthotropic / anisotropic laws with axes moved with the problem, static and one Newmark step, heat conduction, hyperelastic Newton solve; "
               "cantilever beams (Euler-Bernoulli / Timoshenko, 2D / 3D) at generic inclinations with tip force, tip moment and line load; sequences of movers with pressure loads; "
-              "half / quarter turns and coordinate mirrors with laws given in the global axes; two-member beam runs described towards each other; distinct = distinct (element type, transformation, law, simulation)")
+              "half / quarter turns and coordinate mirrors with laws given in the global axes; generic turns about x, y, z of 3D blocks with material axes along the coordinate axes; two-member beam runs described towards each other; distinct = distinct (element type, transformation, law, simulation)")
 
 
 if __name__ == "__main__":
